@@ -9,7 +9,7 @@ from __future__ import annotations
 
 import re
 
-from .. import progcheck
+from .. import core, drive, progcheck
 
 PROP = "C18"
 _HUNK = re.compile(r"^@@ -\d+(?:,\d+)? \+(\d+)(?:,(\d+))? @@")
@@ -56,6 +56,20 @@ def monitor(p, r):
             yield ("still-flagged-in-rewritten-code", f"after the run the rule still reports {inside[:3]} inside the lines the run rewrote {sorted(touched)[:8]}")
 
 
+def schedule_judge(files, detail):
+    failed = {f.split("/proj/", 1)[-1] for res in detail["results"] for f in res.get("failedFiles") or []}
+    out = []
+    for path, before in sorted(files.items()):
+        after = detail["tree"].get(path)
+        if not isinstance(before, bytes) or not isinstance(after, bytes) or path in failed:
+            continue
+        if b"verify=False" in before and b"verify=False" in after:
+            out.append(("schedule|semgrep-detected|reported-call-not-rewritten", f"{path}: the rule reports its verify=False call(s), the file is not listed as failed, and a verify=False call is still there"))
+        if b"verify=check" in before and b"verify=check" not in after:
+            out.append(("schedule|semgrep-detected|unreported-call-rewritten", f"{path}: requests.get(..., verify=check) is not reported by the rule but was rewritten"))
+    return out
+
+
 def explore(tier, seed):
     coverage, violations = progcheck.run_monitor(
         PROP, tier, seed, monitor, select=lambda p: p.seed.origin == "pixee", confirm="inproc", sig_fn=progcheck.sig_by_context,
@@ -64,6 +78,25 @@ def explore(tier, seed):
     progs, recs, *_ = progcheck.explore_space(tier, seed)
     rule_detected = sorted({p.seed.codemod for p in progs if recs[p.pid].flagged and recs[p.pid].flagged[0] is not None})
     flagged = sum(1 for p in progs if recs[p.pid].flagged and recs[p.pid].flagged[0])
+    # several workers: under every interleaving (<= 1 preemption, line granularity) of the per-file tasks of a rule-detected codemod,
+    # every reported call is rewritten (or its file failed) and the look-alike call at the same position that the rule does NOT
+    # report is left alone
+    from ..core import Violation
+    from . import c11a
+
+    r = c11a.explore_cached("semgrep-detected", "line", 1)
+    known_open = {k["signature"] for k in core.load_known() if k["property"] == PROP and k["status"] == "open"}
+    for h, detail in sorted(r["details"].items()):
+        for sig, what in schedule_judge(r["files"], detail):
+            if sig in {v.signature for v in violations}:
+                continue
+            if sig not in known_open:
+                drive.init_inproc()
+                again = [dict(schedule_judge(r["files"], c11a.run_once("semgrep-detected", r["outcomes"][h], "line")[2])) for _ in range(2)]
+                if not all(sig in a for a in again):
+                    continue
+            violations.append(Violation(PROP, sig, f"under schedule {r['outcomes'][h][:30]}: {what}", {"schedule": "semgrep-detected", "choices": r["outcomes"][h], "kind": sig}, 1))
+    coverage["schedule_outcomes_judged"] = {"driver": "semgrep-detected", "executions": r["executions"], "distinct_outcomes": len(r["outcomes"])}
     coverage["rule_detected_codemods"] = rule_detected
     coverage["programs_flagged_by_their_detector"] = flagged
     assumptions = [
@@ -78,6 +111,12 @@ def replay(rp):
     from .. import batch, drive
 
     drive.init_inproc()
+    if rp.get("schedule"):
+        from . import c11a
+
+        detail = c11a.run_once(rp["schedule"], rp["choices"], "line")[2]
+        found = schedule_judge(dict(c11a.DRIVERS[rp["schedule"]]["files"]), detail)
+        return (rp["kind"] not in {s for s, _ in found}), "\n".join(f"{s}: {d}" for s, d in found) or "every reported call rewritten, the unreported one left alone"
     p = batch.program_from_replay(rp)
     r = batch.run_alone_inproc(p, 2)
     found = list(monitor(p, r))
